@@ -177,7 +177,8 @@ def run(ctx):
     def go(chunk):
         src = SCRIPT % {'repo': REPO, 'cases': chunk}
         try:
-            p = subprocess.run([PY, '-c', src], stdout=subprocess.PIPE, stderr=subprocess.PIPE, text=True, timeout=ctx.n(240, 1500))
+            # the script goes through stdin: with a few thousand cases it is longer than one command-line argument may be
+            p = subprocess.run([PY, '-'], input=src, stdout=subprocess.PIPE, stderr=subprocess.PIPE, text=True, timeout=ctx.n(240, 1500))
             return p.returncode, p.stdout, p.stderr
         except subprocess.TimeoutExpired as e:
             return 'timeout', (e.stdout or b'').decode() if isinstance(e.stdout, bytes) else (e.stdout or ''), ''
